@@ -21,7 +21,14 @@ import (
 	"verif/internal/fw"
 )
 
-const verifDir = "/verif"
+// verifDir is where the framework lives: /verif, or the directory the check script runs from
+// (a snapshot under /root/.vp/runs/<n>/verif for background runs).
+var verifDir = func() string {
+	if d := os.Getenv("VERIF_DIR"); d != "" {
+		return d
+	}
+	return "/verif"
+}()
 
 func main() {
 	tier := flag.String("tier", "", "quick|thorough (default $VERIF_TIER or quick)")
@@ -118,10 +125,33 @@ type aggregate struct {
 
 func (d *driver) workDir() string { return filepath.Join(verifDir, ".work") }
 
+// modfileArgs: normally the module replace points at /repo. For background runs on a
+// snapshot ($VERIF_REPO, e.g. `vp run --with-repo`), an alternative go.mod with the
+// replace redirected is written to the scratch directory and passed with -modfile.
+func (d *driver) modfileArgs() []string {
+	repo := os.Getenv("VERIF_REPO")
+	if repo == "" || repo == "/repo" {
+		return nil
+	}
+	mf := filepath.Join(d.scratch, "alt.mod")
+	if _, err := os.Stat(mf); err != nil {
+		b, err := os.ReadFile(filepath.Join(verifDir, "go.mod"))
+		if err != nil {
+			return nil
+		}
+		os.WriteFile(mf, []byte(strings.Replace(string(b), "=> /repo", "=> "+repo, 1)), 0o644)
+		if sum, err := os.ReadFile(filepath.Join(verifDir, "go.sum")); err == nil {
+			os.WriteFile(filepath.Join(d.scratch, "alt.sum"), sum, 0o644)
+		}
+	}
+	return []string{"-modfile=" + mf}
+}
+
 // buildWorker compiles cmd/vworker against /repo's current tree.
 func (d *driver) buildWorker(race bool, extra ...string) (string, error) {
 	name := "vworker"
-	args := []string{"build", "-tags", "verif"}
+	args := append([]string{"build"}, d.modfileArgs()...)
+	args = append(args, "-tags", "verif")
 	if race {
 		name += "-race"
 		args = append(args, "-race")
@@ -147,7 +177,7 @@ func (d *driver) buildServer() (string, error) {
 	if _, err := os.Stat(out); err == nil {
 		return out, nil
 	}
-	cmd := exec.Command("go", "build", "-race", "-o", out, "github.com/coredhcp/coredhcp/cmds/coredhcp")
+	cmd := exec.Command("go", append(append([]string{"build"}, d.modfileArgs()...), "-race", "-o", out, "github.com/coredhcp/coredhcp/cmds/coredhcp")...)
 	cmd.Dir = verifDir
 	b, err := cmd.CombinedOutput()
 	if err != nil {
